@@ -36,6 +36,37 @@ func (c *RunCtx) writeC06Cases(monitor string, per int) {
 	}
 }
 
+// how many operations of a history met the antecedent of each theorem (evidence: an implication no
+// generated history exercises would be visible)
+func c06Antecedents(ctx *RunCtx, h *c06Hist) {
+	for i, o := range h.g.Ops {
+		x := h.g.Obs[i]
+		switch {
+		case o.Kind == "Token" && x.Kind == "Tokens":
+			ctx.Meta.Dist["antecedent:token_issued/"+o.Grant]++
+			if x.Dpop {
+				ctx.Meta.Dist["antecedent:token_issued_dpop_bound"]++
+			}
+			if h.m.Dpop == 2 || h.m.TLS == 2 || h.m.BindReq || h.m.CDpop && h.m.Dpop > 0 || h.m.CTLS && h.m.TLS > 0 {
+				ctx.Meta.Dist["antecedent:token_issued_under_a_requirement"]++
+			}
+		case (o.Kind == "UserInfo" && x.Kind == "UserInfo") || (o.Kind == "TokenInfoReq" && x.Kind == "Intro" && x.Active):
+			ctx.Meta.Dist["antecedent:token_use_accepted"]++
+		case o.Kind == "Introspect" && x.Kind == "Intro" && x.Active:
+			if x.Jkt != 0 {
+				ctx.Meta.Dist["antecedent:cnf_jkt_reported"]++
+			}
+			if x.X5t != 0 {
+				ctx.Meta.Dist["antecedent:cnf_x5t_reported"]++
+			}
+		case o.Kind == "Par" && x.Kind == "Par" && (o.Bind.Dpop != nil || o.Bind.Cert != 0 || o.Params.DpopJkt != 0):
+			ctx.Meta.Dist["antecedent:binding_announced_at_par"]++
+		case o.Kind == "Authorize" && x.Kind == "Nav" && x.NCode != 0 && o.Params.DpopJkt != 0:
+			ctx.Meta.Dist["antecedent:dpop_jkt_announced_at_authorize"]++
+		}
+	}
+}
+
 func chunks[T any](l []T, n int) [][]T {
 	var out [][]T
 	for i := 0; i < len(l); i += n {
@@ -101,6 +132,7 @@ func init() {
 						}
 						ctx.AddCase(h.g.Case(fmt.Sprintf("c06dev mode=%s entry=%s prefix=%q deviations=%s /%s", m.Name, e.Name, prefix, devNames(ch), fl)))
 						ctx.AddStats(h.g.stats)
+						c06Antecedents(ctx, h)
 						ctx.Meta.Dist["mode:"+m.Name]++
 						ctx.Meta.Dist["entry:"+e.Name]++
 					}
@@ -124,6 +156,7 @@ func init() {
 			note := h.cross(ctx.R)
 			ctx.AddCase(h.g.Case(fmt.Sprintf("c06flow#%d mode=%s prefix=%q %s /%s", i, m.Name, prefix, note, fl)))
 			ctx.AddStats(h.g.stats)
+			c06Antecedents(ctx, h)
 			ctx.Meta.Dist["mode:"+m.Name]++
 		}
 		ctx.Meta.Rule = "cross-endpoint histories PAR -> authorize -> token -> userinfo / TokenInfoFromRequest -> refresh -> userinfo for public and confidential clients, the binding announced through dpop_jkt, a DPoP proof or a certificate at PAR or dpop_jkt at /authorize, each later step with the right, another or no key / certificate; distinct by projected trace; non-trivial = at least one accepted and one refused operation"
